@@ -325,7 +325,7 @@ class CallMixin:
             if not fr.spec:
                 for j, text, _t in self.clauses(c.requires):
                     v = self.ev1(self.parse_spec(text), st, sf)
-                    self.oblige(st, '%s#call[%s].requires[%d]' % (fr.prefix, short, j), truthy(v), {'text': text})
+                    self.oblige(st, '%s#call[%s].requires[%s]' % (fr.prefix, short, j), truthy(v), {'text': text})
                     st.assume(asz(truthy(v)))
             outs = []
             # exceptional outcomes
